@@ -26,22 +26,6 @@ fn is_skipped_macro(m: &Macro) -> bool {
 }
 
 impl<'a> Tr<'a> {
-    /// the value of the function: for `&mut self` methods the new self (paired with the result)
-    pub fn finish(&mut self, v: Val, env: &Env) -> R<String> {
-        let rt = self.ret_ty.clone();
-        join(&v.ty, &rt).map_err(|m| format!("return value: {}", m))?;
-        if self.mut_self {
-            let s = env.get("self").map(|x| x.coq.clone()).unwrap_or_else(|| "self'".into());
-            if rt == Ty::Unit {
-                Ok(s)
-            } else {
-                Ok(format!("({}, {})", s, v.s))
-            }
-        } else {
-            Ok(v.s)
-        }
-    }
-
     pub fn expr_k(&mut self, e: &Expr, env: &Env, hint: Option<&Ty>, k: K) -> R<String> {
         match e {
             Expr::Paren(p) => self.expr_k(&p.expr, env, hint, k),
@@ -94,11 +78,42 @@ impl<'a> Tr<'a> {
             }
             Expr::Assign(a) => self.assign_k(&a.left, None, &a.right, env, e, k),
             Expr::Binary(b) if is_compound(&b.op) => self.assign_k(&b.left, Some(&b.op), &b.right, env, e, k),
-            Expr::MethodCall(m) if self.mut_methods.contains(&m.method.to_string()) && place_root(&m.receiver).map(|r| env.get(&r).is_some()).unwrap_or(false) => {
-                self.mut_call_k(m, env, e, k)
-            }
             Expr::Macro(m) if is_skipped_macro(&m.mac) => k(self, unit()),
+            Expr::Loop(l) => {
+                if l.label.is_some() {
+                    return Err(unsupported(e, "labelled loop"));
+                }
+                self.loop_k(None, &l.body, env, e, k)
+            }
+            Expr::While(w) => {
+                if w.label.is_some() || matches!(&*w.cond, Expr::Let(_)) {
+                    return Err(unsupported(e, "labelled loop / `while let`"));
+                }
+                self.loop_k(Some(&w.cond), &w.body, env, e, k)
+            }
+            Expr::Break(b) => {
+                if b.label.is_some() || b.expr.is_some() {
+                    return Err(unsupported(e, "`break` with a label or a value"));
+                }
+                match self.loops.last() {
+                    Some((_, brk)) => Ok(brk.clone()),
+                    None => Err(unsupported(e, "`break` outside a loop")),
+                }
+            }
+            Expr::Continue(c) => {
+                if c.label.is_some() {
+                    return Err(unsupported(e, "`continue` with a label"));
+                }
+                match self.loops.last() {
+                    Some((cont, _)) => Ok(cont.clone()),
+                    None => Err(unsupported(e, "`continue` outside a loop")),
+                }
+            }
             _ => {
+                let eff = self.effects_expr(e);
+                if eff.ret || !eff.assigned.is_empty() {
+                    return self.hoist_k(e, env, hint, k);
+                }
                 let v = self.pure(e, env, hint)?;
                 k(self, v)
             }
@@ -136,7 +151,7 @@ impl<'a> Tr<'a> {
                                     Pat::Ident(i) if i.subpat.is_none() => {
                                         let c = self.fresh(&i.ident.to_string());
                                         binders.push_str(&format!(" ({} : {})", c, self.t.coq_ty(&t)?));
-                                        env2.push(&i.ident.to_string(), Var { coq: c, ty: t.clone() });
+                                        env2.push(&i.ident.to_string(), var(c, t.clone()));
                                     }
                                     _ => return Err(unsupported(first, "closure parameter that is not `name: type`")),
                                 }
@@ -153,9 +168,17 @@ impl<'a> Tr<'a> {
                     let n = pi.ident.to_string();
                     let c = self.fresh(&n);
                     let mut env3 = env.clone();
-                    env3.push(&n, Var { coq: c.clone(), ty: Ty::Fn(ptys, Box::new(body.ty.clone())) });
+                    env3.push(&n, var(c.clone(), Ty::Fn(ptys, Box::new(body.ty.clone()))));
                     let r = self.stmts_k(rest, &env3, hint, k)?;
                     return Ok(let_in(&c, true, &format!("(fun{} =>\n{})", binders, body.s), &r));
+                }
+                let fa = self.fn_assigned.clone();
+                if let Some((env2, lets)) = self.alias_let(pat, &init.expr, env, &fa)? {
+                    let mut r = self.stmts_k(rest, &env2, hint, k)?;
+                    for (c, v) in lets.iter().rev() {
+                        r = let_in(c, true, v, &r);
+                    }
+                    return Ok(r);
                 }
                 self.expr_k(&init.expr, env, ann.as_ref(), &|tr, v| {
                     let vty = match &ann {
@@ -183,7 +206,7 @@ impl<'a> Tr<'a> {
                 let n = c.ident.to_string();
                 let cq = self.fresh(&n);
                 let mut env2 = env.clone();
-                env2.push(&n, Var { coq: cq.clone(), ty: vty });
+                env2.push(&n, var(cq.clone(), vty));
                 let r = self.stmts_k(rest, &env2, hint, k)?;
                 Ok(let_in(&cq, true, &v.s, &r))
             }
@@ -239,14 +262,7 @@ impl<'a> Tr<'a> {
             return Ok(render(&strs));
         }
         // branches only compute a value and/or assign to outer variables: join through a tuple
-        let m: Vec<(String, Var)> = env.vars.iter().filter(|(n, _)| eff.assigned.contains(n)).map(|(n, v)| (n.clone(), v.clone())).collect();
-        // keep the innermost binding of each name only
-        let mut mm: Vec<(String, Var)> = vec![];
-        for (n, _) in m.iter() {
-            if !mm.iter().any(|(x, _)| x == n) {
-                mm.push((n.clone(), env.get(n).unwrap().clone()));
-            }
-        }
+        let mm: Vec<(String, Var)> = self.mutated_vars(&eff.assigned, env);
         let cell: RefCell<Option<Ty>> = RefCell::new(None);
         let mut strs = vec![];
         for (benv, b) in bodies.iter() {
@@ -305,11 +321,31 @@ impl<'a> Tr<'a> {
         }
     }
 
-    fn if_k(&mut self, i: &ExprIf, env: &Env, hint: Option<&Ty>, k: K) -> R<String> {
+    pub fn if_k(&mut self, i: &ExprIf, env: &Env, hint: Option<&Ty>, k: K) -> R<String> {
         let else_body = match &i.else_branch {
             Some((_, e)) => Body::Expr(e),
             None => Body::Empty,
         };
+        {
+            // a condition with effects (a `&mut self` call, `x.next()`, a fuelled call) is evaluated first
+            let ce: &Expr = match &*i.cond {
+                Expr::Let(l) => &l.expr,
+                c => c,
+            };
+            let eff = self.effects_expr(ce);
+            if eff.ret || !eff.assigned.is_empty() {
+                return self.expr_k(ce, env, None, &|tr, v| {
+                    let (env2, rn, cn) = tr.bind_tmp(env, &v);
+                    let mut i2 = i.clone();
+                    match &mut *i2.cond {
+                        Expr::Let(l) => *l.expr = crate::effects::path_expr_of(&rn),
+                        c => *c = crate::effects::path_expr_of(&rn),
+                    }
+                    let rest = tr.if_k(&i2, &env2, hint, k)?;
+                    Ok(crate::effects::let_pat(&[cn], &v.s, &rest))
+                });
+            }
+        }
         if let Expr::Let(l) = &*i.cond {
             let sc = self.pure(&l.expr, env, None)?;
             let mut env2 = env.clone();
@@ -327,7 +363,19 @@ impl<'a> Tr<'a> {
         self.branches(bodies, &|s| format!("if {} then\n{}\nelse\n{}", cs, s[0], s[1]), env, hint, k)
     }
 
-    fn match_k(&mut self, m: &ExprMatch, env: &Env, hint: Option<&Ty>, k: K) -> R<String> {
+    pub fn match_k(&mut self, m: &ExprMatch, env: &Env, hint: Option<&Ty>, k: K) -> R<String> {
+        {
+            let eff = self.effects_expr(&m.expr);
+            if eff.ret || !eff.assigned.is_empty() {
+                return self.expr_k(&m.expr, env, None, &|tr, v| {
+                    let (env2, rn, cn) = tr.bind_tmp(env, &v);
+                    let mut m2 = m.clone();
+                    *m2.expr = crate::effects::path_expr_of(&rn);
+                    let rest = tr.match_k(&m2, &env2, hint, k)?;
+                    Ok(crate::effects::let_pat(&[cn], &v.s, &rest))
+                });
+            }
+        }
         let sc = self.pure(&m.expr, env, None)?;
         let mut pats = vec![];
         let mut bodies = vec![];
@@ -378,7 +426,7 @@ impl<'a> Tr<'a> {
     }
 
     /// functional update of `base` at `path`
-    fn update(&self, base: &Val, path: &[Member], new: &str, at: &Expr) -> R<String> {
+    pub fn update(&self, base: &Val, path: &[Member], new: &str, at: &Expr) -> R<String> {
         if path.is_empty() {
             return Ok(new.to_string());
         }
@@ -462,10 +510,9 @@ impl<'a> Tr<'a> {
                 t => return Err(unsupported(at, &format!("compound assignment on {}", t.show()))),
             },
         };
-        let base = Val { s: var.coq.clone(), ty: var.ty.clone() };
-        let upd = self.update(&base, &path, &newv, at)?;
+        let _ = &var;
         let r = k(self, unit())?;
-        Ok(let_in(&var.coq, true, &upd, &r))
+        self.write_place(&root, &path, env, &newv, &r, at)
     }
 
     fn mut_call_k(&mut self, m: &ExprMethodCall, env: &Env, at: &Expr, k: K) -> R<String> {
